@@ -268,6 +268,51 @@ def _task(aw):
     return _quiet(asyncio.ensure_future(aw))
 
 
+def _explained(roots, pending):
+    """Pending tasks reachable from the given (background) futures: children of gather futures, the
+    future a task is blocked on, and the tasks an asyncio.wait() of such a task is waiting for."""
+    seen, ok, stack = set(), set(), list(roots)
+    while stack:
+        f = stack.pop()
+        if id(f) in seen:
+            continue
+        seen.add(id(f))
+        if isinstance(f, asyncio.Task):
+            ok.add(f)
+            w = getattr(f, "_fut_waiter", None)
+            if w is not None:
+                stack.append(w)
+            continue
+        ch = getattr(f, "_children", None)
+        if ch:
+            stack.extend(ch)
+        # tasks waiting FOR this future (e.g. wait_and_run_hook waiting for the background futures)
+        for cb in (getattr(f, "_callbacks", None) or []):
+            fn = cb[0] if isinstance(cb, tuple) else cb
+            owner = getattr(fn, "__self__", None)
+            if isinstance(owner, asyncio.Task) and owner in pending:
+                stack.append(owner)
+            for c in (getattr(fn, "__closure__", None) or ()):
+                w = getattr(c, "cell_contents", None)
+                if isinstance(w, asyncio.Future) and not isinstance(w, asyncio.Task):
+                    for q in pending:
+                        if getattr(q, "_fut_waiter", None) is w:
+                            stack.append(q)
+        if ch:
+            continue
+        # a plain future: e.g. the waiter of asyncio.wait(); find the tasks whose done callbacks refer to it
+        for q in pending:
+            if id(q) in seen:
+                continue
+            for cb in (getattr(q, "_callbacks", None) or []):
+                fn = cb[0] if isinstance(cb, tuple) else cb
+                cells = getattr(fn, "__closure__", None) or ()
+                if any(getattr(c, "cell_contents", None) is f for c in cells):
+                    stack.append(q)
+                    break
+    return ok
+
+
 async def _settle(n=SETTLE):
     for _ in range(n):
         await asyncio.sleep(0)
@@ -352,6 +397,21 @@ async def drive(scen, sched_seed, stop, recorder=None):
         return r
 
     stream = None
+    # remember the sets of background futures of the executors of this run (resolved by name)
+    bg_sets, bg_watch_failed, bg_saved = [], False, None
+    try:
+        from graphql.execution.executor import Executor as _Ex
+        _orig_sib = _Ex.__dict__["settle_in_background"]
+
+        def _sib(ex, awaitables, _orig=_orig_sib):
+            bg = getattr(ex, "background_futures", None)
+            if bg is not None and not any(bg is b for b in bg_sets):
+                bg_sets.append(bg)
+            return _orig(ex, awaitables)
+        _Ex.settle_in_background = _sib
+        bg_saved = (_Ex, _orig_sib)
+    except Exception:  # noqa: BLE001
+        bg_watch_failed = True
     try:
         # ---- phase A: the call and the initial result
         try:
@@ -527,7 +587,30 @@ async def drive(scen, sched_seed, stop, recorder=None):
         if left:
             await _settle(DRAIN * 3)
             left = [t for t in asyncio.all_tasks(loop) if t is not me and not t.done()]
-        out.leaked = sorted(_coro_name(t) for t in left)
+        out.tolerated_background = 0
+        if left and out.stopped is not None:
+            # Work that the executor settles in the background (Executor.background_futures; by design it is
+            # awaited, not cancelled, and the hook waits for it) may still wait for resolvers in flight.
+            # Only tasks reachable from those futures are tolerated here; they must settle in phase 2.
+            roots = []
+            for bg in bg_sets:
+                roots.extend(f for f in bg if not f.done() and f not in roots)
+            if bg_watch_failed:
+                out.tolerated_background = len(left)
+                strict = []
+            elif roots:
+                try:
+                    ok = _explained(roots, left)
+                    out.tolerated_background = len([t for t in left if t in ok])
+                    strict = [t for t in left if t not in ok]
+                except Exception:  # noqa: BLE001
+                    out.tolerated_background = len(left)
+                    strict = []
+            else:
+                strict = left
+            out.leaked = sorted(_coro_name(t) for t in strict)
+        else:
+            out.leaked = sorted(_coro_name(t) for t in left)
         out.gates_left = len(world.pending_gates())
         out.hooks_before_release = len(world.hook_calls)
         if left:
@@ -541,6 +624,8 @@ async def drive(scen, sched_seed, stop, recorder=None):
             await _settle(DRAIN)
             left2 = [t for t in asyncio.all_tasks(loop) if t is not me and not t.done()]
             out.leaked_after_release = sorted(_coro_name(t) for t in left2)
+            if left2 and not out.leaked:
+                out.leaked = out.leaked_after_release   # background work that never settles
             for t in left2:
                 t.cancel()
             if left2:
@@ -551,6 +636,8 @@ async def drive(scen, sched_seed, stop, recorder=None):
         if recorder is not None:
             out.comp_traces, out.siq_traces = recorder.collect()
     finally:
+        if bg_saved is not None:       # installed last, removed first
+            bg_saved[0].settle_in_background = bg_saved[1]
         if recorder is not None:
             recorder.detach()
         # never leave anything behind in the loop
@@ -1679,6 +1766,8 @@ def direct_drives(ck, m, thorough):
                     bad = "machine is quiescent, the implementation still has a pending producer / cleanup task"
             if bad:
                 repd["impl"] = {"observations": obs, "final": final}
+                if final[-1] > 1:
+                    key = K_TWICE      # the abort callback (source close) ran more than once
                 ck.violation(key, f"StreamItemQueue(eager={eg}, on_abort={hc}, async={ca}) script {list(script)}: {bad}",
                              repd)
         ck.count("stream_queue_direct_cases", len(cases))
